@@ -452,6 +452,15 @@ func c04Alphabet(s *sessSys) []sessReq {
 					add(fmt.Sprintf("mod-ufar-fwd-peer%d", pi), sessReq{sReq: sReq{Kind: kMod, Conn: c, UpdateFAR: []sFAR{{ID: 2, Action: ActionForward, HasFwd: true, HasDst: true, Dst: ie.DstInterfaceAccess, OHCIP: peer, OHCTEID: 0x7000 + uint32(pi)}}}, Sess: x.Idx})
 				}
 				if f.Action&ActionBuffer == 0 {
+					if q1 := x.qer(1); q1 != nil && q1.GateDL == 0 && q1.QFI != 5 {
+						// a modification that carries nothing but an Update QER: the downlink gate closes / the QFI changes
+						nq := *q1
+						nq.GateDL = 1
+						add("mod-uqer-close-dl-gate", sessReq{sReq: sReq{Kind: kMod, Conn: c, UpdateQER: []sQER{nq}}, Sess: x.Idx})
+						nq = *q1
+						nq.QFI = 5
+						add("mod-uqer-qfi5", sessReq{sReq: sReq{Kind: kMod, Conn: c, UpdateQER: []sQER{nq}}, Sess: x.Idx})
+					}
 					add("mod-ufar-buffer", sessReq{sReq: sReq{Kind: kMod, Conn: c, UpdateFAR: []sFAR{{ID: 2, Action: ActionBuffer | ActionNotify, HasFwd: true}}}, Sess: x.Idx})
 					if f2 := x.far(2); f2 != nil && f2.OHCIP != "" && f2.Action == ActionForward {
 						// idle transition that keeps the tunnel parameters in the Update Forwarding Parameters
